@@ -1838,6 +1838,7 @@ size_t _GD_DoField(DIRFILE *restrict D, gd_entry_t *restrict E, int repr,
   void *true_data_out = data_out;
   const gd_type_t true_return_type = return_type;
   int out_of_place = 0;
+  int zero_imag = 0;
 
   dtrace("%p, %p(%s), %i, %" PRId64 ", %" PRIuSIZE ", 0x%X, %p", D, E, E->field,
       repr, (int64_t)first_samp, num_samp, return_type, data_out);
@@ -1883,10 +1884,9 @@ size_t _GD_DoField(DIRFILE *restrict D, gd_entry_t *restrict E, int repr,
   /* short circuit for purely real native types */
   if (~ntype & GD_COMPLEX) {
     if (repr == GD_REPR_IMAG) {
-      memset(data_out, 0, GD_SIZE(return_type) * num_samp);
-      D->recurse_level--;
-      dreturn("%" PRIuSIZE, num_samp);
-      return num_samp;
+      /* all zero, but only as many samples as the field has */
+      zero_imag = 1;
+      repr = GD_REPR_NONE;
     } else if (repr == GD_REPR_REAL)
       repr = GD_REPR_NONE;
   }
@@ -1970,6 +1970,9 @@ size_t _GD_DoField(DIRFILE *restrict D, gd_entry_t *restrict E, int repr,
   if (!D->error && repr != GD_REPR_NONE)
     _GD_ExtractRepr(D, data_out, return_type, true_data_out, true_return_type,
         n_read, repr);
+
+  if (zero_imag && !D->error && true_return_type != GD_NULL)
+    memset(true_data_out, 0, GD_SIZE(true_return_type) * n_read);
 
   if (out_of_place)
     free(data_out);
